@@ -46,7 +46,7 @@ func (tlc *ThreeLevelCall) Evaluate(dc *context.DataContext, Vars map[string]ref
 	} else {
 		av, err := tlc.MethodArgs.Evaluate(dc, Vars)
 		if err != nil {
-			return reflect.ValueOf(nil), err
+			return reflect.ValueOf(nil), errors.New(fmt.Sprintf("line %d, column %d, code: %s, %+v", tlc.LineNum, tlc.Column, tlc.Code, err))
 		}
 		argumentValues = av
 	}
